@@ -44,9 +44,15 @@ def scene_for(case):
     filler = Shape(place("M70,70 L95,72 L90,96 L66,90 Z", S), Solid("green"), label="filler")
     filler2 = Shape(place("M60,5 L97,9 L81,33 Z", S), Solid("yellow"), label="filler2")
     vb = (0, 0, case["vb"], case["vb"])
+    pre = []
+    if case.get("prelude") == "tiny_far":
+        # an earlier shape with the donor's normalised outline, 40 times smaller and far from the origin: the donor cannot
+        # be placed from it (the translation leaves the 16.16 range), so the donor has to become the outline later copies use
+        pre = [Shape(place(d0, aff.mul(S, aff.mul(aff.tr(94, 93), aff.sc(1 / 40))), nd=6), Solid("orange"), label="tiny-first")]
+    n = len(pre)
     if case["where"] == "same":
-        return [Glyph((0xE000,), vb, [donor, filler, copy])], (0, 0, 0, 2)
-    return [Glyph((0xE000,), vb, [donor, filler]), Glyph((0xE001,), vb, [filler2, copy])], (0, 0, 1, 1)
+        return [Glyph((0xE000,), vb, pre + [donor, filler, copy])], (0, n, 0, n + 2)
+    return [Glyph((0xE000,), vb, pre + [donor, filler]), Glyph((0xE001,), vb, [filler2, copy])], (0, n, 1, 1)
 
 
 def _resolve(font, fmt, name):
@@ -121,6 +127,8 @@ def cases(tier):
         prod = itertools.product(list(OUTLINES), TRANSLATIONS, ROTATIONS, MIRRORS, VBS, WHERE, TOLS, FMTS)
     for o, t, r, mi, vb, w, tol, fmt in prod:
         out.append({"outline": o, "t": t, "rot": r, "mirror": mi, "vb": vb, "where": w, "tol": tol, "fmt": fmt})
+        if tier != "quick" or (mi == "none" and vb == 100):
+            out.append(dict(out[-1], prelude="tiny_far"))
     for o in OUTLINES:
         for w in WHERE:
             for fmt in FMTS:
@@ -139,7 +147,7 @@ def run(report, tier, only=None):
     listing.run(report, cs, execute, timeout=120, transitions_per_case=1)
     report.extra["outline_snap_margins_steps"] = {n: round(min(snapgrid.margin(d, t / 10) for t in TOLS), 3) for n, d in OUTLINES.items()}
     report.rule = (
-        "full product outline x translation x rotation x mirror x viewBox size x {same glyph, other glyph} x tolerance x "
+        "full product outline x translation x rotation x mirror x viewBox size x {same glyph, other glyph} x tolerance x {no prelude, an earlier tiny far-away shape with the same normalised outline from which the donor cannot be placed} x "
         "{glyf_colr_0, glyf_colr_1, picosvg} (quick: a sub-product), each built with the real code; donor and copy must resolve "
         "to one outline glyph / one <path> (after flattening composites and <use>); with tolerance -1 they must be separate; "
         "distinct = format x shared/separate"
